@@ -73,6 +73,9 @@ func (x *executor) args(op Op) *mgmt.ControlArgs {
 func (x *executor) build(op Op, idx int) (wire []byte, match enc.Name, comp []byte, err error) {
 	x.nonce++
 	icfg := &ndn.InterestConfig{Lifetime: utils.IdPtr(time.Second), Nonce: utils.IdPtr(0x5eed0000 + x.nonce), MustBeFresh: op.Fresh}
+	if op.Hint != "" {
+		icfg.ForwardingHint = []enc.Name{mkName(op.Hint)}
+	}
 	name := mkName(op.Pfx)
 	name = append(name.Clone(), enc.NewStringComponent(enc.TypeGenericNameComponent, op.Mod),
 		enc.NewStringComponent(enc.TypeGenericNameComponent, op.Verb))
